@@ -66,7 +66,7 @@ def gen_world(rng: random.Random, parse_friendly: bool) -> World:
                     note=rng.choice(["", "", rng.choice(txt)]),
                     header_color=rng.choice(COLORS), comment=None if parse_friendly else rng.choice([None, "tc", "t\nc", "t\n\nc", "ends "]),
                     properties={"tp": "v"} if rng.random() < 0.3 and (d["allow_properties"] or not parse_friendly) else None,
-                    ctor_cols=rng.random() < 0.5)
+                    ctor_cols=rng.random() < 0.5, abstract=(not parse_friendly) and rng.random() < 0.1)
         for cn in rng.sample(COL_POOL, rng.randint(1, 4)):
             ty: Any = rng.choice(TYPES[:5] if parse_friendly else TYPES)
             if enums and rng.random() < 0.25:
@@ -836,7 +836,9 @@ def draw_op(rng: random.Random, eng: C10Engine) -> List[Any]:
     if r < 0.40:  # table / column renames and settings
         if rng.random() < 0.4:
             t = rng.choice(tables)
-            f = rng.choice(["name", "name", "schema", "alias", "header_color", "comment"])
+            f = rng.choice(["name", "name", "schema", "alias", "header_color", "comment", "abstract"])
+            if f == "abstract":
+                return ["set", t, "abstract", not m[t]["abstract"]]
             v = {"name": rng.choice(NAME_POOL + ["renamed"]), "schema": rng.choice(SCHEMAS + ["s9"]),
                  "alias": rng.choice([None, "al9", "zz", ""]), "header_color": rng.choice(COLORS),
                  "comment": rng.choice([None, "new c", "a\nb", ""])}[f]
